@@ -174,4 +174,160 @@ theorem findCompLoop_inv (nb : V → List V) (Vs : List V) (hcl : ∀ a ∈ Vs, 
     · subst hz; exact this.2.2.1 _ (by simp)
     · exact this.2.2.2.1 z (List.mem_append_right _ hz)
 
+/-- exactness of the loop started at `[start]` with `start` flagged -/
+theorem findCompLoop_exact (nb : V → List V) (Vs : List V) (hcl : ∀ a ∈ Vs, ∀ b ∈ nb a, b ∈ Vs)
+    (start : V) (hsV : start ∈ Vs) (S : List V) (hS : ∀ b ∈ S, ¬ Reach nb start b)
+    (vis0 : List V) (hvis0 : ∀ v, v ∈ vis0 ↔ v ∈ S ∨ v = start) :
+    (findCompLoop nb Vs [start] [] vis0).1.Nodup ∧
+    (∀ b, b ∈ (findCompLoop nb Vs [start] [] vis0).1 ↔ Reach nb start b) ∧
+    (∀ b, b ∈ (findCompLoop nb Vs [start] [] vis0).2 ↔ b ∈ S ∨ Reach nb start b) := by
+  have h := findCompLoop_inv nb Vs hcl start hsV S hS [start] [] vis0
+    (by intro x hx; simp at hx; subst hx; exact Reach.refl _) (by simp) (by simp) (by simp)
+    (fun x hx => (hvis0 x).mpr (Or.inl hx))
+    (fun v hv => by
+      rcases (hvis0 v).mp hv with h | h
+      · exact Or.inl h
+      · subst h; exact Or.inr (Or.inr (by simp)))
+    (by simp)
+  have hex : ∀ b, b ∈ (findCompLoop nb Vs [start] [] vis0).1 ↔ Reach nb start b := by
+    intro b
+    constructor
+    · exact h.2.1 b
+    · intro hr
+      exact Reach.mem h.2.2.2.2.1 hr (h.2.2.2.1 start (by simp))
+  refine ⟨h.1, hex, ?_⟩
+  intro b
+  rw [h.2.2.2.2.2 b, hex b]
+
+/-! ## `dfs` -/
+
+theorem nodup_reverse {l : List V} (h : l.Nodup) : l.reverse.Nodup := by
+  unfold List.Nodup at *
+  rw [List.pairwise_reverse]
+  exact h.imp (fun h => h.symm)
+
+theorem dfsLoop_inv (nb : V → List V) (Vs : List V) (hcl : ∀ a ∈ Vs, ∀ b ∈ nb a, b ∈ Vs)
+    (start : V) (hsV : start ∈ Vs) :
+    ∀ st out,
+      (∀ x ∈ st, Reach nb start x) → (∀ x ∈ out, Reach nb start x) → out.Nodup →
+      (∀ a ∈ out, ∀ b ∈ nb a, b ∈ out ∨ b ∈ st) →
+      (dfsLoop nb Vs st out).Nodup ∧
+      (∀ x ∈ dfsLoop nb Vs st out, Reach nb start x) ∧
+      (∀ x ∈ out, x ∈ dfsLoop nb Vs st out) ∧
+      (∀ x ∈ st, x ∈ dfsLoop nb Vs st out) ∧
+      (∀ a ∈ dfsLoop nb Vs st out, ∀ b ∈ nb a, b ∈ dfsLoop nb Vs st out) ∧
+      (∃ pre, dfsLoop nb Vs st out = pre ++ out) := by
+  intro st out
+  induction st, out using dfsLoop.induct (nb := nb) (Vs := Vs) with
+  | case1 out =>
+    intro _ hout hnd hclo
+    simp only [dfsLoop]
+    refine ⟨hnd, hout, fun x hx => hx, fun x hx => by simp at hx, ?_, ⟨[], rfl⟩⟩
+    intro a ha b hb
+    rcases hclo a ha b hb with h | h
+    · exact h
+    · simp at h
+  | case2 x st out h ih =>
+    intro hst hout hnd hclo
+    rw [dfsLoop, dif_pos h]
+    have hxV : x ∈ Vs := Reach.mem hcl (hst x (by simp)) hsV
+    have hxo : x ∈ out := by
+      rcases h with h | h
+      · exact h
+      · exact absurd hxV h
+    have := ih (fun z hz => hst z (List.mem_cons_of_mem _ hz)) hout hnd
+      (fun z hz y hy => by
+        rcases hclo z hz y hy with h' | h'
+        · exact Or.inl h'
+        · rcases List.mem_cons.mp h' with h'' | h''
+          · subst h''; exact Or.inl hxo
+          · exact Or.inr h'')
+    refine ⟨this.1, this.2.1, this.2.2.1, ?_, this.2.2.2.2⟩
+    intro z hz
+    rcases List.mem_cons.mp hz with hz | hz
+    · subst hz; exact this.2.2.1 _ hxo
+    · exact this.2.2.2.1 z hz
+  | case3 x st out h ih =>
+    intro hst hout hnd hclo
+    rw [dfsLoop, dif_neg h]
+    have hx : Reach nb start x := hst x (by simp)
+    have hxo : x ∉ out := fun hc => h (Or.inl hc)
+    have := ih
+      (fun z hz => by
+        rcases List.mem_append.mp hz with hz | hz
+        · exact Reach.step hx (List.mem_reverse.mp hz)
+        · exact hst z (List.mem_cons_of_mem _ hz))
+      (fun z hz => by
+        rcases List.mem_cons.mp hz with hz | hz
+        · subst hz; exact hx
+        · exact hout z hz)
+      (List.nodup_cons.mpr ⟨hxo, hnd⟩)
+      (fun z hz y hy => by
+        rcases List.mem_cons.mp hz with hz | hz
+        · subst hz; exact Or.inr (List.mem_append_left _ (List.mem_reverse.mpr hy))
+        · rcases hclo z hz y hy with h' | h'
+          · exact Or.inl (List.mem_cons_of_mem _ h')
+          · rcases List.mem_cons.mp h' with h'' | h''
+            · subst h''; exact Or.inl (by simp)
+            · exact Or.inr (List.mem_append_right _ h''))
+    refine ⟨this.1, this.2.1, fun z hz => this.2.2.1 z (List.mem_cons_of_mem _ hz), ?_, this.2.2.2.2.1, ?_⟩
+    · intro z hz
+      rcases List.mem_cons.mp hz with hz | hz
+      · subst hz; exact this.2.2.1 _ (by simp)
+      · exact this.2.2.2.1 z (List.mem_append_right _ hz)
+    · obtain ⟨pre, hpre⟩ := this.2.2.2.2.2
+      exact ⟨pre ++ [x], by rw [hpre]; simp⟩
+
+theorem dfsLoop_exact (nb : V → List V) (Vs : List V) (hcl : ∀ a ∈ Vs, ∀ b ∈ nb a, b ∈ Vs)
+    (start : V) (hsV : start ∈ Vs) :
+    (dfsLoop nb Vs [start] []).Nodup ∧ (∀ b, b ∈ dfsLoop nb Vs [start] [] ↔ Reach nb start b) ∧
+    (∃ pre, dfsLoop nb Vs [start] [] = pre ++ [start]) := by
+  have hstep : dfsLoop nb Vs [start] [] = dfsLoop nb Vs ((nb start).reverse ++ []) [start] := by
+    rw [dfsLoop, dif_neg (by simp [hsV])]
+  have h := dfsLoop_inv nb Vs hcl start hsV [start] []
+    (by intro x hx; simp at hx; subst hx; exact Reach.refl _) (by simp) (by simp) (by simp)
+  have h2 := dfsLoop_inv nb Vs hcl start hsV ((nb start).reverse ++ []) [start]
+    (by intro x hx; simp at hx; exact Reach.single hx)
+    (by intro x hx; simp at hx; subst hx; exact Reach.refl _) (by simp)
+    (by intro a ha b hb; simp at ha; subst ha; right; simpa using hb)
+  refine ⟨h.1, ?_, ?_⟩
+  · intro b
+    constructor
+    · exact h.2.1 b
+    · intro hr
+      exact Reach.mem h.2.2.2.2.1 hr (h.2.2.2.1 start (by simp))
+  · rw [hstep]; exact h2.2.2.2.2.2
+
+/-! ## the graph without one node -/
+
+theorem nbWithout_mem {nb : V → List V} {x a b : V} :
+    b ∈ nbWithout nb x a ↔ a ≠ x ∧ b ∈ nb a ∧ b ≠ x := by
+  unfold nbWithout
+  by_cases h : a = x
+  · simp [h]
+  · simp [h]
+
+theorem nbWithout_undirected {nb : V → List V} {Vs : List V} (hu : Undirected nb Vs) (x : V) :
+    Undirected (nbWithout nb x) (Vs.filter (· != x)) where
+  symm := by
+    intro a b hb
+    obtain ⟨h1, h2, h3⟩ := nbWithout_mem.mp hb
+    exact nbWithout_mem.mpr ⟨h3, hu.symm a b h2, h1⟩
+  closed := by
+    intro a ha b hb
+    obtain ⟨_, h2, h3⟩ := nbWithout_mem.mp hb
+    have haV : a ∈ Vs := (List.mem_filter.mp ha).1
+    exact List.mem_filter.mpr ⟨hu.closed a haV b h2, by simpa using h3⟩
+  outside := by
+    intro a ha
+    apply List.eq_nil_iff_forall_not_mem.mpr
+    intro b hb
+    obtain ⟨h1, h2, _⟩ := nbWithout_mem.mp hb
+    apply ha
+    refine List.mem_filter.mpr ⟨?_, by simpa using h1⟩
+    apply Decidable.byContradiction
+    intro hn
+    rw [hu.outside a hn] at h2
+    simp at h2
+
 end Gaftools.Proofs.Algo
